@@ -430,6 +430,25 @@ func (g *gen) hookSchedules() {
 			}
 		}
 	}
+	// overlapping writers of the same URL, systematically: A runs its four steps, B is abandoned
+	// after k of its steps, in every interleaving; reads just before A's rename, right after it
+	// (B possibly created / written / closed but not renamed) and at the end
+	for k1 := 1; k1 <= 3; k1++ {
+		for _, ws := range interleavings(4, k1) {
+			r := rng.Fork(uint64(g.id))
+			b0, b1 := pickB(r)
+			pA, seen := 0, 0
+			for j, x := range ws {
+				if x == 0 {
+					seen++
+					if seen == 4 {
+						pA = j + 1
+					}
+				}
+			}
+			g.hookCase("hook-overlap", []wspec{{u0, b0}, {u0, b1}}, insertReads(ws, []int{pA - 1, pA, len(ws)}, []string{u0, u0, u0}))
+		}
+	}
 	// truncated schedules: writers abandoned at every hook point (a crash of a thread of the process)
 	for k0 := 0; k0 <= 4; k0++ {
 		for k1 := 0; k1 <= 4; k1++ {
